@@ -431,6 +431,9 @@ func hxShort(b []byte) string {
 
 func (h *harness) runConc(seed uint64, cases, nops int) {
 	h.runCloseRaces(seed)
+	for i := 0; i < 2; i++ {
+		h.recoverWithWorkerCase(fmt.Sprintf("conc-%d-recoverworker%d", seed, i), seed+uint64(i))
+	}
 	r := &rng{s: seed*0x9e3779b97f4a7c15 + 99}
 	for i := 0; i < cases; i++ {
 		name := fmt.Sprintf("conc-%d-%d", seed, i)
@@ -438,4 +441,71 @@ func (h *harness) runConc(seed uint64, cases, nops int) {
 		h.concCase(r, name, nops)
 		h.emit("end")
 	}
+}
+
+// recoverWithWorkerCase (C10): a database that was not closed is opened with the background worker
+// configured to compact every millisecond. Recovery reads and rebuilds log and index without any
+// lock, so the worker must not run before it is done: Open succeeds, the contents are complete, no
+// panic, and Close leaves no goroutine behind.
+func (h *harness) recoverWithWorkerCase(name string, seed uint64) {
+	h.emit("case %s", name)
+	defer h.emit("end")
+	r := &rng{s: seed*0x9e3779b97f4a7c15 + 4711}
+	sim := simfs.New()
+	o := &pogreb.Options{FileSystem: sim}
+	pogreb.VerifSetThresholds(o, 16384, 1, 0.05)
+	db, err := pogreb.Open("rw", o)
+	if err != nil {
+		h.emit("concfail case=%s open: %s", name, errStr(err))
+		return
+	}
+	want := map[string]string{}
+	for i := 0; i < 4000; i++ {
+		k := fmt.Sprintf("k%03d", r.intn(300))
+		v := fmt.Sprintf("v%d-%s", i, string(patternBytes(40+r.intn(40), byte(i))))
+		if err := db.Put([]byte(k), []byte(v)); err != nil {
+			h.emit("concfail case=%s put: %s", name, errStr(err))
+			return
+		}
+		want[k] = v
+	}
+	sim.Kill() // the process dies: lock file present, nothing closed
+	before := dbGoroutines()
+	o2 := &pogreb.Options{FileSystem: sim, BackgroundCompactionInterval: time.Millisecond, BackgroundSyncInterval: time.Millisecond}
+	pogreb.VerifSetThresholds(o2, 16384, 1, 0.05)
+	checks := 0
+	var db2 *pogreb.DB
+	func() {
+		defer func() {
+			if e := recover(); e != nil {
+				err = fmt.Errorf("panic: %v", e)
+			}
+		}()
+		db2, err = pogreb.Open("rw", o2)
+	}()
+	if err != nil {
+		h.emit("concfail case=%s the recovering Open with a background worker configured failed: %s", name, errStr(err))
+		return
+	}
+	checks++
+	time.Sleep(20 * time.Millisecond) // let the worker compact for a while
+	for k, v := range want {
+		got, err := db2.Get([]byte(k))
+		if err != nil || string(got) != v {
+			h.emit("concfail case=%s after recovery with a background worker key %s reads %q (%v), want %q", name, k, hxShort(got), err, hxShort([]byte(v)))
+			break
+		}
+		checks++
+	}
+	if int(db2.Count()) != len(want) {
+		h.emit("concfail case=%s after recovery with a background worker Count=%d, want %d", name, db2.Count(), len(want))
+	}
+	if err := db2.Close(); err != nil {
+		h.emit("concfail case=%s Close after recovery with a background worker: %s", name, errStr(err))
+	}
+	time.Sleep(5 * time.Millisecond)
+	if n := dbGoroutines(); n > before {
+		h.emit("concfail case=%s %d goroutine(s) of the database still running after Close", name, n-before)
+	}
+	h.emit("concsum case=%s variant=recover-with-worker checks=%d", name, checks)
 }
